@@ -175,7 +175,7 @@ impl<'a> SessionData<'a> {
                             self.pending_server_packet_ids
                                 .push(packet_id)
                                 .map(|_| ReasonCode::Success)
-                                .unwrap_or(ReasonCode::ReceiveMaxExceeded)
+                                .unwrap_or(ReasonCode::QuotaExceeded)
                         } else {
                             ReasonCode::Success
                         };
